@@ -23,13 +23,25 @@ def bases(rng, n, tier):
     return out
 
 
-def correspond(ck, cases, impl, stream):
+def correspond(ck, cases, impl, stream, judge=None):
+    """judge(base, spec, bytes) -> None when the property's oracle accepts these saved bytes.  When the implementation
+    raises on a scenario for which the model produces bytes the oracle accepts, the scenario itself is a failing input:
+    the authored content is representable (here is a file holding it) and the call did not deliver it."""
     got = vlib.run_model("Rich", [A.scenario_tree(b, s) for _, b, s in cases], shards=min(vlib.NCPU, max(1, len(cases) // 8)))
     mism, first = 0, None
     for (label, b, s), r, g in zip(cases, impl, got):
         ok = (r[0] == 0 and g.startswith("(0")) or (r[0] == 1 and g == vlib.T(r))
         if not ok:
             mism += 1
+            if judge is not None and r[0] == 0 and g.startswith("(1"):
+                try:
+                    verdict = judge(b, s, bytes(vlib.parse_tree(g)[1]))
+                except Exception:  # noqa
+                    verdict = "judge failed"
+                if verdict is None:
+                    ck.violation(f"{label}: the call raised (error class {r[1]}) although the authored content is representable: "
+                                 f"the model's output holds every authored value in its field",
+                                 {"kind": "raised-on-representable", "label": label, "base_hex": b.hex(), "spec": s}, True)
             if first is None:
                 if r[0] == 1 and g.startswith("(1"):
                     first = (label, RC.chunk_diff(bytes(r[1]), bytes(vlib.parse_tree(g)[1]))[:3])
@@ -119,8 +131,18 @@ def c04_oracle(base, spec, out):
                         c, f = row[name]
                         want = expected_arg(c, v, spec, vb, vo)
                         have = view.get(name)
+                        if name == "_duration_ms" and v[0] == 11:
+                            # no explicit duration: the file's true duration, from the WAV metadata given to the save
+                            pth = next((x[1][1] for x in args if x[0] == "_path_to_wav_in_mpq"), None)
+                            want = dict((p_, d_) for p_, d_ in (spec.get("wav_meta") or [])).get(pth)
                         if c == "switch":
                             have = ("new", have[1]) if v[0] == 8 else have
+                            if v[0] != 8 and isinstance(have, (list, tuple)) and have[0] == want[0]:
+                                # a reference to switch NUMBER k: the number is what was authored.  Its name is the
+                                # base map's, unless k was unnamed there (the empty text counts as unnamed) - then an
+                                # earlier step of the same scenario may have given slot k to an authored switch
+                                if not want[1] and (not have[1] or have[1] in {sw[0] for sw in spec["pool"]["switches"]}):
+                                    have = want
                         if c in ("loc", "locthrow") and isinstance(have, tuple):
                             have = tuple(have)
                         if isinstance(want, tuple) and isinstance(have, (list, tuple)):
